@@ -649,7 +649,7 @@ func (e *evidence) addHarness(h harnessReg, params map[string]int, r *sym.Harnes
 		"merges": st.Merges, "forks": st.Forks, "instructions": st.Steps, "wall_s": r.Wall.Seconds(),
 		"solver_s": r.SolverTime.Seconds(), "assert_labels_reached": st.AssertLabels, "covers": st.Covers,
 		"shapes": st.Shapes, "go_statements_recorded": st.GoStmts, "init_notes": len(st.InitFailed),
-		"second_solver_rechecked": st.CrossChecked, "second_solver_unknown": st.CrossUnknown, "second_solver_disagreements": st.CrossDisagree,
+		"second_solver_rechecked": st.CrossChecked, "second_solver_unknown": st.CrossUnknown, "second_solver_disagreements": st.CrossDisagree, "second_solver_skipped_budget": st.CrossSkipped,
 		"violation_candidates": len(r.Viols), "inconclusive": r.Inconclusive,
 	}
 	c.Harnesses = append(c.Harnesses, hm)
